@@ -6,15 +6,15 @@ VARIABLE l
 Strip(p) == [tsmap |-> p.tsmap, css |-> p.css, regions |-> p.regions, cues |-> p.cues]
 Reason(ev) ==
   IF ev.dir = "read" THEN
-    IF RefRead(ev.d) # Truth(Strip(ev.g)) THEN "ORACLE-reference-decoder-disagrees-with-generator"
+    IF RefRead(ev.d) # Truth(ColourAsClass(Strip(ev.g))) THEN "ORACLE-reference-decoder-disagrees-with-generator"
     ELSE IF ev.res # "ok" THEN "reader-" \o ev.res
-    ELSE IF Strip(ev.post) # Strip(ev.g) THEN "reader-returns-something-else"
+    ELSE IF Strip(ev.post) # ColourAsClass(Strip(ev.g)) THEN "reader-returns-something-else"
     ELSE "ok"
   ELSE
     IF ev.res # "ok" THEN "writer-" \o ev.res
     ELSE IF RefRead(ev.d).err THEN "cue-references-region-not-defined-earlier"
     ELSE IF ~WriteOK(Strip(ev.g), ev.d) THEN "written-document-denotes-something-else(independent-decoder)"
-    ELSE IF Strip(ev.post) # Strip(Renumber(Strip(ev.g))) THEN "written-document-denotes-something-else(library-reader)"
+    ELSE IF Strip(ev.post) # Strip(Renumber(ColourAsClass(Strip(ev.g)))) THEN "written-document-denotes-something-else(library-reader)"
     ELSE "ok"
 \* implementation layer: the model of the reader's control state predicts what the hook at the top of its loop saw
 ImplPredicts(ev) == ev.dir = "read" /\ ev.res = "ok" => ev.hooks = ImplHooks(ev.d)
